@@ -133,6 +133,13 @@ CURATED = [
     ([("a", 0, "pre", "new", None, [("user.k", "v")]), ("a", 0, "prefl", "x", None, [("user.k", "v")])], 9, 1, [0, 3], False),
     ([("a", 2, "l", "../elsewhere/victim", None), ("a", 3, "h", "l", None, [("user.k", "v")])], 8, 1, [], False),
     ([("a", 0, "f", "data", None, [("user.k", "v")])], 0, 1, [], False),
+    # hard-link sources that START with a normal component that exists as a real directory and climb out LATER
+    # (`d/../../x`: EntryReference keeps interior dot-dot; seeded C09-4: a fast path for sources that begin with a name)
+    ([("a", 0, "d/f", "x", None), ("a", 3, "h", "d/../../outside_secret", None)], 0, 1, [], False),
+    ([("a", 1, "data", "", None), ("a", 3, "sub/h", "data/../../../elsewhere/victim", 0o777), ("a", 0, "sub/h", "pwn", None)], 3, 2, [], False),
+    ([("a", 3, "h", "predir/../../elsewhere/victim", None), ("a", 0, "h", "pwn", None)], 1, 1, [1], False),
+    ([("a", 1, "a/b", "", None), ("a", 3, "a/h", "b/../../../outside_secret", None)], 1, 1, [], True),
+    ([("a", 0, "d/f", "x", None), ("a", 3, "h", "d/../d/f", None), ("a", 3, "h2", "d/./../h", 0o600)], 3, 1, [], False),
 ]
 
 
